@@ -157,7 +157,11 @@ func analysePairFn(inst pairInst, fn *ssa.Function, summary map[*ssa.Function]in
 					}
 					res.relevant = true
 					if st.depth < 0 {
-						problem(x.Pos(), fmt.Sprintf("%s: release without matching acquire on some path (depth %d)", what, st.depth))
+						// a helper or closure may release what its caller acquired (its net effect is
+						// propagated as a summary); only a function callable from outside must not
+						if pairEntry(fn) {
+							problem(x.Pos(), fmt.Sprintf("%s: release without matching acquire on some path (depth %d)", what, st.depth))
+						}
 					}
 				}
 			case *ssa.Defer:
@@ -207,4 +211,9 @@ func analysePairFn(inst pairInst, fn *ssa.Function, summary map[*ssa.Function]in
 	}
 	sort.Slice(res.sites, func(i, j int) bool { return res.sites[i].pos < res.sites[j].pos })
 	return res
+}
+
+// pairEntry: fn can be called from outside the analysed package (exported function or method).
+func pairEntry(fn *ssa.Function) bool {
+	return fn.Parent() == nil && fn.Object() != nil && fn.Object().Exported()
 }
